@@ -1,3 +1,75 @@
-(* C16  (stub while the correspondence is brought up) *)
-From V Require Import Model.Response Proofs.Response.
-Example C16_nonvacuous : next4 5 = 8. Proof. reflexivity. Qed.
+(* C16  Server responses are never larger than the request.
+   Property theorems only; proofs are in Proofs/Response.v, the model in Model/Response.v. *)
+From V Require Import Model.Response Proofs.Response Gen.ConstResponse.
+From Coq Require Import String.
+Local Open Scope Z_scope.
+
+(* Every answer Server::handle produces fits the buffer it was given: whatever the request
+   (any parsed request, well-formed or not), configuration, server state, clock and key/cookie
+   algorithm, and for both shapes of the cookie loop (tf). *)
+Theorem C16_cursor : forall tf cfg st q recv now mlen B stats w,
+  handle tf cfg st q recv now mlen B = ORespond stats w -> wire_len w <= B.
+Proof. exact handle_le. Qed.
+
+(* the same for any response builder followed by serialize *)
+Theorem C16_serialize_bounded : forall a B w, serialize a B = Ok w -> wire_len w <= B.
+Proof. exact serialize_le. Qed.
+
+(* The daemon's server task hands handle the receive buffer cut to the received length and a send
+   buffer cut to the same length, and sends exactly the slice handle returns (the quoted source
+   text is re-extracted from ntpd/src/daemon/server.rs and ntp-proto/src/server.rs on every run);
+   so the datagram it sends is at most as long as the one it answers. *)
+Theorem C16_daemon :
+  (DAEMON_HANDLE_ARGS = "source_addr.ip(), convert_net_timestamp(timestamp), &buf[..length], &mut send_buf[..length], &mut self.stats, "%string
+   /\ DAEMON_LENGTH_BINDING = "bytes_read: length"%string
+   /\ DAEMON_RECV_CALL = "socket.recv(&mut buf)"%string
+   /\ DAEMON_SEND_BUF_DECL = "let mut send_buf = [0u8; MAX_PACKET_SIZE];"%string
+   /\ DAEMON_SEND_ARG = "send_from_to(message, local_addr, source_addr)"%string
+   /\ DAEMON_HANDLE_CALLS = 1
+   /\ HANDLE_CURSOR = "Cursor::new(buffer)"%string
+   /\ HANDLE_RESULT_SLICE = "&cursor.into_inner()[..length as _]"%string) /\
+  forall tf cfg st q recv now stats w,
+    daemon_reply tf cfg st q recv now = ORespond stats w -> wire_len w <= request_len q.
+Proof. split; [repeat split; reflexivity | exact daemon_le]. Qed.
+
+(* NTPv5 padding: when the unpadded answer is not longer than the desired size and both are
+   multiples of four, the answer is exactly as long as desired (= the request); when it is
+   longer, nothing is added. *)
+Theorem C16_v5_padding_exact : forall a B w w0 d,
+  a_ver a = 5 -> a_desired a = Some d -> 0 <= d < 2 ^ 64 ->
+  unpadded a = Ok w0 -> 0 <= wire_len w0 -> wire_len w0 mod 4 = 0 -> d mod 4 = 0 ->
+  serialize a B = Ok w ->
+  (wire_len w0 <= d -> wire_len w = d) /\ (d <= wire_len w0 -> w = w0).
+Proof. exact serialize_v5_exact. Qed.
+
+(* ... and a remainder of 1..3 bytes is never rounded up past the target: serialize fails *)
+Theorem C16_v5_no_rounding : forall a B w w0 d,
+  a_ver a = 5 -> a_desired a = Some d -> unpadded a = Ok w0 ->
+  0 < d - wire_len w0 < 4 -> serialize a B = Ok w -> False.
+Proof. exact serialize_v5_no_rounding. Qed.
+
+(* every encoded list of (non-padding) extension fields has a length divisible by four *)
+Theorem C16_mod4 : forall v5 minf fs b,
+  Forall not_padding fs -> encode_fields v5 minf fs = Ok b -> len b mod 4 = 0.
+Proof. exact encode_fields_mod4. Qed.
+
+(* non-vacuity: a 73-byte-long-enough buffer gives an answer, a 75-byte buffer does not *)
+Example C16_nonvacuous :
+  let q := {| q_version := 4; q_mode := 3; q_poll := 6; q_xmit := [1;2;3;4;5;6;7;8]; q_upgrade := false;
+              q_untrusted := [FUid [1;2;3;4;5;6;7;8;9;10;11;12]]; q_auth := []; q_enc := []; q_mac := 9;
+              q_cookie := None; q_decrypt_failed := false; q_auths := [] |} in
+  let cfg := {| c_intended := 3; c_require_nts := 0; c_accepted := [3; 4; 5] |} in
+  let st := {| s_stratum := 2; s_leap := 0; s_refid := [1;2;3;4]; s_precision := 238; s_rdelay_short := [0;0;0;0];
+               s_rdisp_short := [0;0;0;2]; s_rdelay_t32 := [0;0;0;0]; s_rdisp_t32 := [0;0;0;0]; s_filter := [] |} in
+  let t := [0;0;0;100;0;0;0;0] in
+  (exists s w, handle false cfg st q t t 73 1024 = ORespond s w /\ wire_len w = 76)
+  /\ (exists s, handle false cfg st q t t 73 73 = OIgnore s)
+  /\ request_len q = 73.
+Proof. vm_compute. repeat split; eauto. Qed.
+
+Print Assumptions C16_cursor.
+Print Assumptions C16_serialize_bounded.
+Print Assumptions C16_daemon.
+Print Assumptions C16_v5_padding_exact.
+Print Assumptions C16_v5_no_rounding.
+Print Assumptions C16_mod4.
